@@ -130,17 +130,9 @@ H("v_generate_user_id_relation", "primitives_model", ["C17", "C16"], "quick", bu
   desc="generate_user_id: id registered, sum a_i*t_i = s, ids from different draws differ; refresh_id refuses an "
        "unknown id and keeps a known id of the right level",
   bounds="tracing level 1; s, tracers, RNG draws symbolic (Z_13)", covers=["id generated"])
-H("f_verify_detects_value_changes", "primitives_model", ["C08"], "quick", build="model", unwind=4, timeout=1500, loops=CMP34,
-  desc="sign/verify: an issued key verifies; any change of a marker, a secret, the right's name (same shape) or any "
-       "signature byte is rejected",
-  bounds="1 marker, 1 right with a 1-byte name and 1 classic secret; all values symbolic",
-  covers=["only the right's name differs", "signature byte flipped"], heavy=True)
-H("f_sign_order_matters", "primitives_model", ["C08"], "quick", build="model", unwind=4, timeout=1500, loops=CMP34,
-  desc="reordering the rights of a key changes its signature",
-  bounds="2 rights with 1-byte names, 1 secret each; all values symbolic", covers=["both signed"], heavy=True)
-H("f_sign_reframing_chain_split", "primitives_model", ["C08"], "quick", build="model", unwind=4, timeout=1500, loops=CMP34,
-  desc="re-framing: {n:[k1,k2]} and {n:[k1], '':[k2]} must not share a signature",
-  bounds="names <= 1 byte, 2 classic secrets; all values symbolic", covers=["both signed"], heavy=True)
+# (three harnesses on `sign` -- f_verify_detects_value_changes, f_sign_order_matters, f_sign_reframing_chain_split,
+# still in harness/primitives_model.rs -- exhausted 36 GB both over the oracle and with Kmac stubbed to a ghost byte
+# stream: the per-field `serialize()` calls through Serializer's Zeroizing<Vec<u8>> dominate. Not registered.)
 
 # ================================================================ key layer over models (no hashing)
 KL = "master key built by struct literal: "
@@ -211,34 +203,14 @@ H("q_attr_split_and_trim", "access_policy", ["C15"], "thorough", build="real", u
   bounds="every valid UTF-8 string of <= 5 bytes")
 
 # ================================================================ serialization (model build)
-_z = dict(build="model", timeout=1500, loops=CMP34)
-H("z_xenc_roundtrip", "serialization_model", ["C13", "C11"], "quick", unwind=4, covers=["hybridized encapsulation"],
-  desc="XEnc: write produces exactly length() bytes; read gives back an equal value, flavour included, nothing left over",
-  bounds="2 traps, 1 encapsulation, flavour symbolic, all bytes symbolic", **_z)
-H("z_usk_roundtrip", "serialization_model", ["C13", "C11", "C17"], "quick", unwind=4,
-  covers=["signed hybridized key", "unsigned key"],
-  desc="UserSecretKey round trip: id, tracing points, rights, chain order, flavour, presence of the signature",
-  bounds="2 markers, 2 points, 1 right (1-byte name) x 2 secrets, flavour and signature presence symbolic", **_z)
-H("z_msk_roundtrip", "serialization_model", ["C13", "C06", "C17"], "quick", unwind=4,
-  covers=["disabled right, signing key present", "no signing key"],
-  desc="MasterSecretKey round trip: tracing key, registered users, chains with activation flags and flavours, optional "
-       "signing key",
-  bounds="1 tracer, 1 user, 1 right x 2 secrets, empty access structure; flag, flavour, key presence symbolic", **_z)
-H("z_mpk_roundtrip", "serialization_model", ["C13", "C11"], "quick", unwind=4, covers=["hybridized public key"],
-  desc="MasterPublicKey round trip: tracers, right keys with flavour", bounds="2 tracers, 1 right, flavour symbolic", **_z)
-H("x_header_frames", "serialization_model", ["C12", "C13"], "quick", unwind=5,
-  covers=["present but empty metadata", "absent metadata"],
-  desc="EncryptedHeader / CleartextHeader framing: length() exact; absent and empty metadata are the same wire value",
-  bounds="metadata None / Some(0..3 symbolic bytes); classic encapsulation with 2 traps", **_z)
-for n, L in [("u_parse_xenc", 22), ("u_parse_usk", 12), ("u_parse_userid", 6), ("u_parse_tpk", 6)]:
-    H(n, "serialization_model", ["C14"], "quick" if n in ("u_parse_userid", "u_parse_tpk") else "thorough", unwind=L + 2,
-      covers=["some input parses", "some input is rejected"], seedable=False,
-      desc="T::read on arbitrary bytes: no panic, loops end, Vec::with_capacity requests stay proportional to the input",
-      bounds="every byte string of <= %d bytes (counts/lengths up to 2^64-1 via 10-byte LEB128 are in range where L >= 10)" % L,
-      **_z)
+# (round-trip harnesses z_xenc/z_usk/z_msk/z_mpk_roundtrip, x_header_frames and the parser harnesses u_parse_* are in
+# harness/serialization_model.rs; every one of them timed out at 1500 s: Serializer/Deserializer go through
+# Zeroizing<Vec<u8>> / io::Read on heap buffers. Not registered; C12 and C13 are not applicable.)
+_z = dict(build="model", timeout=900, loops=CMP34)
 H("u_use_degenerate_values", "serialization_model", ["C14"], "quick", unwind=4,
   covers=["parsed an encapsulation without traps"],
-  desc="values only a parser can build (no trap, empty id, no tracer): tracing_level()/count() accessors do not panic",
+  desc="values only a parser can build (no trap, empty id, no tracer): read succeeds and the tracing_level()/count() "
+       "accessors do not panic",
   bounds="3 concrete degenerate encodings, symbolic tag", **_z)
 
 # ================================================================ policy layer (model build)
@@ -246,9 +218,10 @@ _p = dict(build="model", timeout=1500, loops=[[r"^memcmp$", 6]])
 H("e_dict_remove_preserves_order", "policy_model", ["C03"], "quick", unwind=5, covers=["middle entry removed"],
   desc="Dict::remove / update_key keep the relative order and the values of the other entries and the index invariant",
   bounds="Dict<u8,u8> with 3 entries, symbolic keys/values, symbolic removed key", **_p)
-H("e_attribute_ids_never_shared", "policy_model", ["C03"], "quick", unwind=5, covers=["an attribute was deleted before the add"],
+H("e_attribute_ids_never_shared", "policy_model", ["C03"], "thorough", unwind=5, covers=["an attribute was deleted before the add"], seedable=False, heavy=True,
   desc="AccessStructure::add_attribute after a deletion: the new attribute's id differs from the id of every live attribute",
-  bounds="1 anarchy dimension (1-byte names), sequence add a, add b, del (a or b, symbolic), add c", **_p)
+  bounds="1 anarchy dimension (1-byte names), sequence add a, add b, del (a or b, symbolic), add c (timed out at 1500 s "
+         "during development: String-keyed maps of maps; reported as inconclusive when it does again)", **_p)
 H("h_bitor_tables", "policy_model", ["C11", "C06"], "quick", unwind=2, covers=["reached"],
   desc="EncryptionHint::bitor / AttributeStatus::bitor / bool conversions: full truth tables (hint OR, status AND)",
   bounds="all 4 x 4 combinations (symbolic)", **_p)
@@ -258,8 +231,8 @@ CHECKS = {
                 outside="policy expansion (rights of user/encryption policies), >1 target, real curves / ML-KEM / Keccak"),
     "C02": dict(bounds_note="S-kem over models: 1 target, user key with 1 non-matching secret",
                 outside="policy expansion / Dimension::restrict, several rights per key, real primitives"),
-    "C03": dict(bounds_note="Dict<u8,u8> with 3 entries; one anarchy dimension with <= 3 attributes; key layer drops unknown rights",
-                outside="hierarchies with `after`, renames through the structure, interleaving with encapsulations"),
+    "C03": dict(bounds_note="Dict<u8,u8> with 3 entries (remove / rename); key layer drops rights outside the structure (refresh, update_msk)",
+                outside="attribute id allocation in AccessStructure::add_attribute (harness times out, thorough tier only), hierarchies with `after`, interleaving with encapsulations"),
     "C04": dict(bounds_note="RevisionVec shapes <= 3 chains x <= 3; refresh_coordinate_keys over histories of 4 secrets; rekey/mpk on 1-2 rights",
                 outside="more than 2 rights per key, chains longer than 3, end-to-end decaps after refresh (composition argued in DESIGN)"),
     "C05": dict(bounds_note="prune on chains of 1..3; refresh_coordinate_keys on every (master, user) segment pair listed; update_msk with 2 rights",
@@ -268,20 +241,16 @@ CHECKS = {
                 outside="encaps error path through the policy layer; histories are covered inductively per operation, not enumerated"),
     "C07": dict(bounds_note="single-component tamper of a classic 1-target encapsulation",
                 outside="hybridized encapsulations, several targets, structural rearrangements (swap/drop/duplicate), AES-GCM layer"),
-    "C08": dict(bounds_note="sign/verify over the random-oracle KMAC: 1-2 rights, names <= 1 byte, chains <= 2",
-                outside="hybridized secrets, longer names, keys issued by another master key"),
+    "C08": dict(bounds_note="refresh of a key whose id is not registered: refused, nothing modified (1 right, concrete ids, symbolic secrets)",
+                outside="the MAC itself: which arrangements of rights/secrets share a signature (sign() did not fit, see DESIGN section 7), altered signatures, keys of another master key"),
     "C09": dict(bounds_note="error/success contract of rekey, update_msk, refresh, select_subkeys on 1-2 rights",
                 outside="AccessStructure edit contracts, usk_keygen, every reachable state (states of the stated shapes only)"),
     "C10": dict(bounds_note="every failing step of rekey / update_msk / refresh(unknown id) in both processing orders",
                 outside="usk_keygen, failures caused by serialization errors (unreachable), states with >2 rights"),
     "C11": dict(bounds_note="hint algebra tables; flavour through rekey/update/mpk/serialization; encapsulation mode selection",
                 outside="combine() over a structure (policy layer), E_j bound into the tag for hybridized encapsulations"),
-    "C12": dict(bounds_note="header framing only (metadata None/Some(<=3 bytes))",
-                outside="PKE round trip and authentication (AES-256-GCM and SHAKE are trusted dependencies, not executed)"),
-    "C13": dict(bounds_note="round trip + exact length() for XEnc, USK, MSK, MPK, headers at the listed shapes",
-                outside="AccessStructure/Dimension with content, use of deserialized objects later on, vectors of the pinned release"),
-    "C14": dict(bounds_note="T::read on all byte strings up to L bytes for XEnc(22)/USK(12)/UserId(6)/TPK(6); degenerate values; revision iterator on zero chains",
-                outside="MPK/MSK/AccessStructure/EncryptedHeader parsers, inputs longer than L, wall-clock/RSS of a real process"),
+    "C14": dict(bounds_note="accessors on the degenerate values a parser can return (no trap / empty id / no tracer); revision iterator on a key without chains",
+                outside="the parsers on arbitrary bytes and pre-allocation from untrusted counts (harnesses timed out, see DESIGN section 7), wall-clock/RSS of a real process"),
     "C15": dict(bounds_note="find_matching_closing_parenthesis on all UTF-8 strings <= 4 bytes; QualifiedAttribute::try_from <= 5 bytes (thorough)",
                 outside="AccessPolicy::parse itself (recursive; not tractable), to_dnf equivalence, precedence"),
     "C16": dict(bounds_note="two consecutive generate_user_id calls with symbolic RNG",
